@@ -7,7 +7,7 @@ void lemma_same_source(void)
   QXmppDiscoveryManagerPrivate md; QXmppDiscoveryManager m; m.d = &md;
   md.clientCapabilitiesNode = nondet_qstr(); md.clientCategory = nondet_qstr(); md.clientType = nondet_qstr(); md.clientName = nondet_qstr(); md.clientInfoForm = nondet_int();
   gh_disco = &m; gh_client = nondet_int();
-  gh_every_field_has_a_value = true; gh_no_boolean_field = true;        /* outside the recorded findings */
+  gh_every_field_has_a_value = true; gh_no_boolean_field = true; gh_qstring_order_is_octet_order = true;        /* outside the recorded findings */
   __CPROVER_assume(CAPS_DEFINED_FOR(&m));
   InfoSet caps = caps_infoset(&m);
   __CPROVER_assume(XEP_DEFINED_FOR(caps));
